@@ -239,18 +239,27 @@ func stdFrame(l string) bool {
 // called by a library goroutine. Such a report is the harness's own race.
 func accessInHarness(stack []string) bool {
 	copying := false
-	for _, fn := range stack {
+	for i, fn := range stack {
 		if stdFrame(fn) {
 			if strings.HasPrefix(fn, "runtime.slicecopy") || strings.HasPrefix(fn, "runtime.memmove") {
 				copying = true
 			}
 			continue
 		}
-		if copying && (strings.HasSuffix(fn, "(*simConn).Read") || strings.HasSuffix(fn, "(*simConn).Write")) {
-			// the simulated socket copying into / out of the buffer its caller passed
-			// in: the memory is the caller's, as with a real socket
-			copying = false
-			continue
+		if copying && !libFrame(fn) {
+			// the simulated socket (or the simulated master behind its Write) copying
+			// into / out of the buffer the driver passed in: the memory is the driver's,
+			// as with a real socket. Only if the chain of harness frames ends in the
+			// socket's Read / Write, though.
+			for _, up := range stack[i:] {
+				if libFrame(up) {
+					break
+				}
+				if strings.HasSuffix(up, "(*simConn).Read") || strings.HasSuffix(up, "(*simConn).Write") {
+					return false
+				}
+			}
+			return true
 		}
 		return !libFrame(fn)
 	}
